@@ -637,3 +637,15 @@ EQUIVS = [
     E("c01-eq-kinds-percent", DB, "\"kind IN ({})\".format(\",\".join(str(k) for k in filter_obj.kinds))", "\"kind IN (%s)\" % \",\".join(str(int(k)) for k in filter_obj.kinds)"),
     E("c01-eq-value-inline-replace", DB, "                        val = val.replace(\"'\", \"''\")\n                        pstr.append(f\"'{val}'\")", "                        quoted = val.replace(\"'\", \"''\")\n                        pstr.append(\"'\" + quoted + \"'\")"),
 ]
+
+# functions whose syntactic mutants are used for the thorough tier's sensitivity figure (sa/automut.py)
+ANCHORS = [
+    "nostr_relay.storage.db:Subscription.evaluate_filter",
+    "nostr_relay.storage.db:Subscription.build_query",
+    "nostr_relay.storage.kv:compile_match_from_query",
+    "nostr_relay.storage.kv:matcher",
+    "nostr_relay.storage.kv:planner",
+    "nostr_relay.storage.base:NostrQuery.model_validate",
+    "nostr_relay.storage.base:ids_are_hex",
+    "nostr_relay.storage.base:BaseStorage.subscribe",
+]
